@@ -150,4 +150,148 @@ example :
     let s := run (init { mtu := 1200, maxPayload := 1172 } 100 65536) [.openS 2 false 1 0 0, .write 2 53 10, .gather freeOracle [0]]
     s.inflight.map (fun c => s.abandoned c) = [true] := by decide
 
+/-- what "the lists are exact" says about a state: (1) both builders scan exactly the chunks in (cumAck, advPeerAck] — the
+first `advPeerAck − cumAck` chunks of the queue — and all of them are abandoned; (2) FORWARD-TSN: new cumulative TSN =
+advanced peer ack point; one entry per stream; every entry is (stream, SSN) of an abandoned ORDERED chunk in the range
+(unordered ones are not listed: D5a fix); every stream with an ordered chunk in the range has an entry, and that entry is
+the greatest SSN of those chunks whenever the SSNs of the stream in the range lie in one half-space window (fewer than
+2^15 ordered messages of a stream skipped at once); (3) I-FORWARD-TSN: the same with keys (stream, unordered flag) and
+message identifiers. -/
+def FwdExact (s : St) : Prop :=
+  fwdChunks s = s.inflight.take (s.advPeerAck - s.cumAck).toNat ∧
+  (∀ c ∈ fwdChunks s, s.abandoned c = true) ∧
+  ((forwardTSN s).1 = s.advPeerAck ∧ ((forwardTSN s).2.map (·.1)).Nodup ∧
+   (∀ e ∈ (forwardTSN s).2, ∃ c ∈ fwdChunks s, s.abandoned c = true ∧ c.unordered = false ∧ c.si = e.1 ∧ c.ssn = e.2) ∧
+   (∀ base : BitVec 16 → BitVec 16, (∀ c ∈ fwdChunks s, c.unordered = false → (c.ssn - base c.si).toNat < 2^15) →
+     ∀ c ∈ fwdChunks s, c.unordered = false → ∃ ssn, (c.si, ssn) ∈ (forwardTSN s).2 ∧ sna16LTE c.ssn ssn = true)) ∧
+  ((iForwardTSN s).1 = s.advPeerAck ∧ ((iForwardTSN s).2.map (·.1)).Nodup ∧
+   (∀ e ∈ (iForwardTSN s).2, ∃ c ∈ fwdChunks s, s.abandoned c = true ∧ (c.si, c.unordered) = e.1 ∧ c.mid = e.2) ∧
+   (∀ base : BitVec 16 × Bool → BitVec 32, (∀ c ∈ fwdChunks s, (c.mid - base (c.si, c.unordered)).toNat < 2^31) →
+     ∀ c ∈ fwdChunks s, ∃ mid, ((c.si, c.unordered), mid) ∈ (iForwardTSN s).2 ∧ sna32LTE c.mid mid = true))
+
+/-- **The stream lists are exact** in every reachable state (hence in the state a gather leaves, which is the one whose
+lists go on the wire: `C07_forward_flag`): see `FwdExact`. Nothing of a message that is not abandoned is listed. -/
+theorem C07_forward_lists_exact (cfg : Cfg) (tsn peerRwnd : BitVec 32) (hc : CfgOk cfg) (hpr : cfg.prEnabled = true) (ops : List Op)
+    (hok : TsnOk (init cfg tsn peerRwnd) ops) : FwdExact (run (init cfg tsn peerRwnd) ops) := by
+  obtain ⟨hs, _, ha, _, hsm⟩ := reach cfg tsn peerRwnd hc hpr ops hok
+  generalize run (init cfg tsn peerRwnd) ops = s at hs ha hsm
+  have hch := fwdChunks_eq s hs hsm ha
+  have hab : ∀ c ∈ fwdChunks s, s.abandoned c = true := by
+    intro c hmem
+    rw [hch] at hmem
+    obtain ⟨i, hi, hget⟩ := List.getElem_of_mem hmem
+    rw [List.getElem_take] at hget
+    have hi' : i < (s.advPeerAck - s.cumAck).toNat := by
+      rw [List.length_take] at hi; omega
+    have hil : i < s.inflight.length := by rw [List.length_take] at hi; omega
+    exact ha.ab i c hi' (by rw [List.getElem?_eq_getElem hil, hget])
+  obtain ⟨f1, f2, f3⟩ := fwdStreams_spec (fwdChunks s)
+  obtain ⟨g1, g2, g3⟩ := ifwdStreams_spec (fwdChunks s)
+  refine ⟨hch, hab, ⟨rfl, f1, ?_, f3⟩, ⟨rfl, g1, ?_, g3⟩⟩
+  · intro e he
+    obtain ⟨c, c1, c2, c3, c4⟩ := f2 e he
+    exact ⟨c, c1, hab c c1, c2, c3, c4⟩
+  · intro e he
+    obtain ⟨c, c1, c2, c3⟩ := g2 e he
+    exact ⟨c, c1, hab c c1, c2, c3⟩
+
+/-- non-vacuity: ordered stream 2 and unordered stream 3 allow no retransmission, stream 1 is reliable. Written: two
+ordered messages on 2 (SSN 0, 1), one unordered on 3, a reliable one on 1. After T3 the point covers TSN 100..102; the
+FORWARD-TSN lists stream 2 with SSN 1 (the greater), not the unordered stream 3, not stream 1; the I-FORWARD-TSN of the
+interleaving variant lists (2, ordered, MID 1) and (3, unordered, MID 0). -/
+example :
+    let ops := [Op.openS 1 false 0 0 0, .openS 2 false 1 0 0, .openS 3 true 1 0 0, .write 2 53 10, .write 2 53 20, .write 3 53 5, .write 1 53 30,
+      .gather freeOracle [0, 0, 0, 0], .t3]
+    let s := run (init { mtu := 1200, maxPayload := 1172 } 100 65536) ops
+    let s' := run (init { mtu := 1200, maxPayload := 1168, useInterleaving := true, useIForwardTSN := true } 100 65536) ops
+    TsnOk (init { mtu := 1200, maxPayload := 1172 } 100 65536) ops ∧
+    (fwdChunks s).map (·.tsn) = [100#32, 101#32, 102#32] ∧ forwardTSN s = (102#32, [(2#16, 1#16)]) ∧
+    iForwardTSN s' = (102#32, [((2#16, false), 1#32), ((3#16, true), 0#32)]) := by decide
+
+/-- **Who can be abandoned.** In every reachable state, for every chunk the sender holds (in flight or pending):
+(1) a chunk carrying the DCEP payload type belongs to no abandoned message, whatever the policy of its stream;
+(2) for a stream `si` that no operation of the run gives a partially reliable policy (`KeepsRel si`: every
+`openS si … relType …` of the run has a type other than "limited retransmissions" and "timed"), no chunk of `si` belongs
+to an abandoned message — whatever happens to the messages of other streams sharing the association.
+No premise on the configuration or on sequence numbers. (`checkPartialReliabilityStatus` is the only place that flags a
+message; the fragments of a message share stream and payload type: `MsgInv`.) -/
+theorem C07_reliable_never_abandoned (cfg : Cfg) (tsn peerRwnd : BitVec 32) (hc : CfgOk cfg) (ops : List Op) :
+    (∀ c ∈ (run (init cfg tsn peerRwnd) ops).inflight ++ (run (init cfg tsn peerRwnd) ops).pending,
+      c.ppi = BitVec.ofNat 32 PayloadTypeWebRTCDCEP →
+      c.msg ∉ (run (init cfg tsn peerRwnd) ops).abandonedMsgs ∧ (run (init cfg tsn peerRwnd) ops).abandoned c = false) ∧
+    (∀ si, (∀ op ∈ ops, KeepsRel si op) →
+      ∀ c ∈ (run (init cfg tsn peerRwnd) ops).inflight ++ (run (init cfg tsn peerRwnd) ops).pending, c.si = si →
+      c.msg ∉ (run (init cfg tsn peerRwnd) ops).abandonedMsgs ∧ (run (init cfg tsn peerRwnd) ops).abandoned c = false) := by
+  have hm := init_msginv cfg tsn peerRwnd
+  have h0 : ∀ Q, NoAb Q (init cfg tsn peerRwnd) := by intro Q c hcm; simp [chunksOf, init] at hcm
+  refine ⟨?_, ?_⟩
+  · intro c hmem hppi
+    have h := run_noab_dcep _ ops hm (h0 _)
+    exact ⟨h c hmem hppi, h.abandoned hmem hppi⟩
+  · intro si hk c hmem hsi
+    have h := (run_noab_stream si _ ops (init_win cfg tsn peerRwnd hc) hm (by intro st hst; simp [init] at hst) (h0 _) hk).1
+    exact ⟨h c hmem hsi, h.abandoned hmem hsi⟩
+
+/-- non-vacuity: stream 2 allows no retransmission, stream 1 is reliable; a DCEP message on stream 2 and a message on
+stream 1 are sent between two abandoned messages of stream 2 and go through two T3 rounds: only the plain messages of
+stream 2 are abandoned -/
+example :
+    let ops := [Op.openS 1 false 0 0 0, .openS 2 false 1 0 0, .write 2 53 10, .write 2 50 20, .write 1 53 30, .write 2 53 40,
+      .gather freeOracle [0, 0, 0, 0], .t3, .gather freeOracle [], .t3]
+    let s := run (init { mtu := 1200, maxPayload := 1172 } 100 65536) ops
+    (∀ op ∈ ops, KeepsRel 1 op) ∧ s.inflight.map (fun c => (c.si, c.ppi, s.abandoned c)) =
+      [(2#16, 53#32, true), (2#16, 50#32, false), (1#16, 53#32, false), (2#16, 53#32, true)] := by
+  refine ⟨?_, by decide⟩
+  intro op hop
+  simp only [List.mem_cons, List.not_mem_nil, or_false] at hop
+  rcases hop with h | h | h | h | h | h | h | h | h | h <;> subst h <;> simp [KeepsRel] <;> decide
+
+/-
+FULL STATEMENT (as asked for): "no retransmission path — `gatherRtx`, `gatherFast`, T3 marking, RACK/PTO marks — puts an
+abandoned chunk on the wire or marks it."  It is FALSE for `gatherRtx` (`getDataPacketsToRetransmit`): that loop takes
+every chunk that carries the `retransmit` flag and never looks at `abandoned()`. A chunk can carry the flag AND be abandoned
+when it was flagged first and its message became abandoned afterwards (the tail of its message went in flight later, or a
+sibling fragment exhausted the retransmission limit, or the fast-retransmit gather — which does not clear the flag — sent
+it for the last permitted time). `C07_abandoned_retransmitted_witness` decides such a run; the implementation behaves the
+same (corpus/C07/known/d21_abandoned_chunk_retransmitted.ops: `DATA:101` and `FWD:102` leave in the same gather).
+What IS true is the theorem below.
+-/
+
+/-- **Retransmission paths and `abandoned()`** (partial: see the comment above). For EVERY state:
+(1) a T3 expiry flags exactly the in-flight chunks that are neither acked nor abandoned and changes nothing else in the queue;
+(2) RACK / PTO marks flag only chunks that are neither acked nor abandoned;
+(3) the fast-retransmit gather puts on the wire only chunks that are neither acked nor abandoned;
+(4) the T3 retransmission gather puts on the wire exactly chunks that carry the `retransmit` flag.
+Hence an abandoned chunk is never FLAGGED, and it goes on the wire again only if it was flagged before it was abandoned —
+at most once, because (4) clears the flag and (1), (2) never set it again. -/
+theorem C07_abandoned_not_retransmitted_partial (s : St) :
+    ((t3 s).inflight = s.inflight.map (fun c => if c.acked || s.abandoned c then c else { c with retransmit := true })) ∧
+    (∀ marks, (applyMarks s marks).inflight =
+      s.inflight.map fun c => if marks.contains c.tsn && !c.acked && !s.abandoned c then { c with retransmit := true } else c) ∧
+    (∀ (B : Type) (allow : B → Int → Bool × B) (b : B), ∀ x ∈ (gatherFast s allow b).2,
+      ∃ c ∈ s.inflight, x = fastUpd { s with willRetransmitFast := false } c ∧ c.acked = false ∧ s.abandoned c = false) ∧
+    (∀ orc, ∀ x ∈ (gatherRtx s orc).2.1, ∃ c ∈ s.inflight, c.retransmit = true ∧ x = rtxUpd s c) :=
+  ⟨t3_inflight s, fun _ => rfl, fun _ allow b => gatherFast_skips_abandoned s allow b, gatherRtx_sends_flagged s⟩
+
+/-- non-vacuity of (1) and (3): after T3 the abandoned chunk 100 is not flagged, the reliable chunk 101 is -/
+example :
+    let s := run (init { mtu := 1200, maxPayload := 1172 } 100 65536)
+      [.openS 1 false 0 0 0, .openS 2 false 1 0 0, .write 2 53 10, .write 1 53 30, .gather freeOracle [0, 0]]
+    (t3 s).inflight.map (fun c => (c.tsn, c.retransmit, s.abandoned c)) = [(100#32, false, true), (101#32, true, false)] := by decide
+
+/-- **Witness: an abandoned chunk IS retransmitted** (finding D21; the negation of the full statement at a concrete run).
+Stream 2 allows no retransmission; its message has two fragments, the tail is held back by the peer's window. T3 flags
+the head (TSN 101) while the message is not `abandoned()` yet; the next gather cannot retransmit it (window) but sends the
+tail, which makes the message `abandoned()`. After the next SACK the state has TSN 101 abandoned AND flagged, the advanced
+peer ack point at 102 — and the gather retransmits 101 (second transmission under a limit of zero retransmissions)
+together with the FORWARD-TSN that skips it. -/
+theorem C07_abandoned_retransmitted_witness :
+    let s := run (init { mtu := 1200, maxPayload := 1172, minCwnd := 20000 } 100 2200)
+      [.openS 1 false 0 0 0, .openS 2 false 1 0 0, .write 1 53 1000, .write 2 53 1272,
+       .gather freeOracle [0, 0, 0], .t3, .sack 99 2700 [] [], .gather freeOracle [0], .sack 100 65536 [] []]
+    s.inflight.map (fun c => (c.tsn, c.retransmit, s.abandoned c)) = [(101#32, true, true), (102#32, false, true)] ∧
+    s.advPeerAck = 102#32 ∧
+    (gatherRtx s freeOracle).2.1.map (fun c => (c.tsn, c.nSent)) = [(101#32, 2#32)] ∧
+    ((gather s freeOracle []).2.fwd == some (.fwd 102 [(2, 0)])) = true := by decide
+
 end C07
